@@ -249,6 +249,7 @@ func (db *DB) loadContractFile(path, pkgPath string) error {
 			case "func":
 				if old, ok := db.Funcs[cur.Key]; ok {
 					cur = old // allow extension in another file
+					cur.NoBody = false
 				} else {
 					db.Funcs[cur.Key] = cur
 				}
